@@ -26,6 +26,7 @@ pub fn copy_raw_name_from_str(
 ) -> Result<(), Error> {
     let mut label_len = 0u8;
     let mut label_start = 0;
+    let raw_name_start = raw_name.len();
     if name.len() > 253 {
         bail!(DSError::InvalidName("Name too long"))
     }
@@ -61,7 +62,7 @@ pub fn copy_raw_name_from_str(
         }
     }
     debug_assert!(DNS_MAX_HOSTNAME_LEN >= 253);
-    if raw_name.len() > 253 {
+    if raw_name.len() - raw_name_start > 253 {
         bail!(DSError::InvalidName("Name too long"))
     }
     Ok(())
